@@ -390,12 +390,15 @@ class Check:
     # -- verdicts ------------------------------------------------------------------------------
     def violation(self, signature, what, replay):
         """A failing case of the real code. signature = root cause as the spec names it."""
-        for k in self.known:
-            if k.get("signature") == signature:
-                self.known_hit[signature] = self.known_hit.get(signature, 0) + 1
-                if self.known_hit[signature] == 1:
-                    k["_example"] = replay
-                return
+        # a failing case explained by several listed root causes at once carries their signatures joined by "+"
+        parts = signature.split("+")
+        known_sigs = {k.get("signature"): k for k in self.known}
+        if all(p in known_sigs for p in parts):
+            for p in parts:
+                self.known_hit[p] = self.known_hit.get(p, 0) + 1
+                if self.known_hit[p] == 1:
+                    known_sigs[p]["_example"] = replay
+            return
         self._nviol += 1
         if self._nviol > 20:
             return
